@@ -205,6 +205,46 @@ def loopRun {σ α φ : Type} (mro : Exc → List String) (sh : LoopShape) (brok
       | none => none
       | some (st'', acts') => some (st'', acts ++ acts')
 
+/-! ## the C-V2X queue: modem process -> queue -> callback thread -/
+
+/-- how the callback thread recognises the stop signal among the items it takes from the queue (regenerated from the
+source by `gen_except.queue_stop_test`) -/
+inductive StopTest
+  | never    -- the loop has no exit
+  | isNone   -- `if data is None: break`: identity test against the stop signal
+  | falsy    -- the test looks at the VALUE of the item (`if not data`, `len(data) == 0`, ...)
+  | other    -- an exit that is unguarded or guarded by something else
+deriving DecidableEq, Repr
+
+/-- what `callback_queue.get()` returns -/
+inductive QItem
+  | stop                       -- `None`, put by `stop()`
+  | frame (gn : List Nat)      -- a GN packet (possibly EMPTY: the radio frame held the family id only)
+deriving DecidableEq, Repr
+
+/-- does the callback thread leave its loop when it dequeues `q`? -/
+def stopsOn : StopTest → QItem → Bool
+  | .never, _ => false
+  | .isNone, .stop => true
+  | .isNone, .frame _ => false
+  | .falsy, .stop => true
+  | .falsy, .frame b => b.isEmpty
+  | .other, _ => true
+
+/-- the GN packets handed to `receive_callback`, in order, until the loop ends -/
+def served (t : StopTest) : List QItem → List (List Nat)
+  | [] => []
+  | .stop :: r => if stopsOn t .stop then [] else served t r
+  | .frame b :: r => if stopsOn t (.frame b) then [] else b :: served t r
+
+/-- `receive_process`: a radio frame is family id + GN packet; an empty read (`if data:`) means the modem had nothing -/
+def radioToQueue (radio : List (List Nat)) : List QItem :=
+  radio.filterMap (fun r => match r with | [] => none | _ :: gn => some (.frame gn))
+
+/-- the GN packets the radio frames carry (what the station received) -/
+def radioPackets (radio : List (List Nat)) : List (List Nat) :=
+  radio.filterMap (fun r => match r with | [] => none | _ :: gn => some gn)
+
 /-- `Router.gn_data_indicate`: catch-all around the frame processor `proc`; what escapes it is raised INTO the
 link layer's loop.  `sh.inWhile` is not used here (there is no loop in `gn_data_indicate`). -/
 def indicate {σ α φ : Type} (mro : Exc → List String) (sh : LoopShape) (broken : φ → Bool)
